@@ -38,6 +38,10 @@ def scenario(big: bool = False) -> Any:
         d["fail_saves"] = sorted(d["fail_saves"])
         d["horizon"] = cm.horizon_for(d)
         d["drain"] = 0.0
+        for m in d["msgs"]:
+            if m["kind"] == "retask":
+                m["dur"], m["timeout"], m["out"] = 0.0, None, "ret"
+                m.pop("cleanup", None)
         pf = sorted(i for i in d.pop("post_fail") if i < len(d["msgs"]))
         pa = d.pop("post_async")
         if pf:
@@ -46,7 +50,7 @@ def scenario(big: bool = False) -> Any:
             d["mws"] = [{"post_execute": {"async": pa, "fail_on": pf}}]
         return d
 
-    msg = cm.message(kinds=("async", "async", "async", "async", "sync", "bad", "unknown", "plaincls"),
+    msg = cm.message(kinds=("async", "async", "async", "async", "sync", "bad", "unknown", "plaincls", "retask"),
                      acks=("sync", "sync", "async", "async", "future", "deferred", "sync_fail", "async_fail"), timeouts=(None, None, None, 0.3, 1, "0.35"), cleanups=(0, 0, 0, 0.2))
     return st.fixed_dictionaries({
         "A": st.integers(1, 6 if big else 4), "P": st.integers(0, 6 if big else 3), "N": st.sampled_from([None, None, None, 1, 2, 3, 4] + ([6, 9] if big else [])),
@@ -61,6 +65,7 @@ def scenario(big: bool = False) -> Any:
         "save_latency": st.sampled_from([0.0, 0.0, 0.05, 0.3]),
         "post_fail": st.one_of(st.just([]), st.just([]), st.just([]), st.sets(st.integers(0, 7), min_size=1, max_size=3).map(sorted)),
         "post_async": st.sampled_from([False, True]),
+        "register_at": cm.times(),          # instant at which the task name `retask` gets a new (async) implementation on the running worker
     }).map(fin)
 
 
